@@ -87,6 +87,33 @@ def constructed(rnd, n_each):
         m = n + rnd.randrange(0, 3)
         a = (top << (64 * m)) | (a1 << (64 * (m - 1))) | (a2 << (64 * (m - 2)) if m >= 2 else 0) | (rnd.getrandbits(64 * (m - 2)) if m > 2 else 0)
         out.append(('refine', a, v))
+    # small quotients with the same digit count: a = q*v + r for q in 1..4 with the top digits in a 1:q relation
+    # (a "quotient is one" shortcut must not fire for q = 2), incl. divisors whose doubling does not carry
+    for _ in range(n_each):
+        n = rnd.randrange(2, 7)
+        top = rnd.choice((1, 2, 3, rnd.getrandbits(20) | 1, (1 << 61) - 1, (1 << 62) - 1, rnd.getrandbits(62) | 1))
+        v = (top << (64 * (n - 1))) | rnd.getrandbits(64 * (n - 1))
+        for q in (1, 2, 3, 4):
+            for r in (0, 1, rnd.randrange(0, v), v - 1, rnd.getrandbits(40) % v):
+                out.append(('small-quotient', q * v + r, v))
+    # the running remainder vanishes for several steps while the low part of the dividend is still >= the divisor:
+    # a = (v << 64m) + k*v + r with m >= 2*len(v) + 1
+    for _ in range(n_each // 2 + 1):
+        n = rnd.randrange(2, 5)
+        v = rnd.getrandbits(64 * n) | (1 << (64 * n - 1 - rnd.randrange(0, 64)))
+        m = 2 * n + rnd.randrange(1, 4)
+        for k in (0, 1, 7, rnd.getrandbits(64), rnd.getrandbits(64 * n)):
+            r = rnd.choice((0, 11, rnd.randrange(0, v)))
+            out.append(('vanishing-remainder', (v << (64 * m)) + k * v + r, v))
+            out.append(('vanishing-remainder', ((v * rnd.randrange(1, 1 << 64)) << (64 * m)) + k * v + r, v))
+    # dividend and divisor sharing whole low zero digits, with a non-zero remainder (the by-value forms may strip them)
+    for _ in range(n_each // 2 + 1):
+        z = rnd.randrange(1, 4)
+        v0 = rand_digits(rnd, rnd.randrange(1, 5), 0)
+        q = rand_digits(rnd, rnd.randrange(1, 4), 0)
+        r0 = rnd.randrange(1, v0) if v0 > 1 else 0
+        out.append(('shared-low-zeros', (q * v0 + r0) << (64 * z), v0 << (64 * z)))
+        out.append(('shared-low-zeros', ((q * v0 + r0) << (64 * z)) + rnd.getrandbits(64 * z), v0 << (64 * z)))
     return out
 
 
@@ -112,6 +139,15 @@ def workload(tier, seed, scale=1.0):
     # (b) constructed rare branches
     for fam, a, b in constructed(rnd, int((150 if quick else 1500) * scale)):
         add(cmds, a, b, fam, rnd)
+    forms = [(fam, a, b) for fam, a, b in constructed(rng_for(seed + 7, 'C03', tier), 12 if quick else 60) if fam in ('shared-low-zeros', 'small-quotient', 'vanishing-remainder')]
+    for fam, a, b in forms:
+        for op in ('div', 'rem'):
+            cmds.append(cmd_bb('C03', op, a, b, 'U', cell=('bb-' + fam, op, 'U', min(ndig(b), 6))))
+            sa, sb = rnd.choice((1, -1)), rnd.choice((1, -1))
+            cmds.append(cmd_bb('C03', op, sa * a, sb * b, 'I', cell=('bb-' + fam, op, 'I', sa, sb)))
+        if ndig(b) == 2:
+            cmds.append(cmd_sf('C03', 'rem', 'u128', a, b, 'U', cell=('sf-' + fam, 'u128')))
+            cmds.append(cmd_sf('C03', 'div', 'u128', a, b, 'U', cell=('sf-' + fam, 'u128d')))
     # (c) special relations
     for n in list(range(1, 9)) + [15, 40]:
         v = rand_digits(rnd, n, 0)
